@@ -454,7 +454,10 @@ fn eof_at(k: usize, o: &Opts, props: &FieldTable, kind: InEnd, res: &mut CaseRes
     } else if k < total {
         accept.push(sock);
     } else {
+        // the stream ends right behind a complete OpenOk: the handshake is complete, but the
+        // connection is dead on arrival; reporting either is fine
         accept.push("Ok".into());
+        accept.push(sock);
     }
     let got = match &result {
         Ok(_) => "Ok".to_string(),
